@@ -1,0 +1,145 @@
+//go:build verif
+
+package tbtc
+
+import (
+	"context"
+	"crypto/ecdsa"
+	"math/big"
+
+	"github.com/keep-network/keep-core/pkg/chain"
+	"github.com/keep-network/keep-core/pkg/net"
+	"github.com/keep-network/keep-core/pkg/protocol/group"
+	"github.com/keep-network/keep-core/pkg/tecdsa"
+)
+
+// Verification hooks for property C12 (thin wrappers, no behaviour of their
+// own): run the coordination follower routine and the signing done check built
+// with the production constructors, build their messages and read what the
+// done check has stored.
+
+// VerifC12Fault is an exported copy of a coordinationFault.
+type VerifC12Fault struct {
+	Culprit chain.Address
+	Type    CoordinationFaultType
+}
+
+// VerifC12FollowerRoutine builds a coordination executor with
+// newCoordinationExecutor and runs executeFollowerRoutine.
+func VerifC12FollowerRoutine(
+	ctx context.Context,
+	chainHandle Chain,
+	walletPublicKey *ecdsa.PublicKey,
+	signingGroupOperators []chain.Address,
+	membersIndexes []group.MemberIndex,
+	operatorAddress chain.Address,
+	broadcastChannel net.BroadcastChannel,
+	membershipValidator *group.MembershipValidator,
+	leader chain.Address,
+	coordinationBlock uint64,
+	actionsAllowed []WalletActionType,
+) (CoordinationProposal, []VerifC12Fault, error) {
+	ce := newCoordinationExecutor(
+		chainHandle,
+		wallet{
+			publicKey:             walletPublicKey,
+			signingGroupOperators: signingGroupOperators,
+		},
+		membersIndexes,
+		operatorAddress,
+		nil,
+		broadcastChannel,
+		membershipValidator,
+		nil,
+		nil,
+	)
+	proposal, faults, err := ce.executeFollowerRoutine(
+		ctx,
+		leader,
+		coordinationBlock,
+		actionsAllowed,
+	)
+	exported := make([]VerifC12Fault, 0, len(faults))
+	for _, fault := range faults {
+		exported = append(
+			exported,
+			VerifC12Fault{Culprit: fault.culprit, Type: fault.faultType},
+		)
+	}
+	return proposal, exported, err
+}
+
+// VerifC12NewCoordinationMessage builds a coordinationMessage.
+func VerifC12NewCoordinationMessage(
+	senderID group.MemberIndex,
+	coordinationBlock uint64,
+	walletPublicKeyHash [20]byte,
+	proposal CoordinationProposal,
+) interface{} {
+	return &coordinationMessage{
+		senderID:            senderID,
+		coordinationBlock:   coordinationBlock,
+		walletPublicKeyHash: walletPublicKeyHash,
+		proposal:            proposal,
+	}
+}
+
+// VerifC12DoneCheck wraps a signingDoneCheck.
+type VerifC12DoneCheck struct {
+	sdc *signingDoneCheck
+}
+
+// VerifC12NewDoneCheck builds the check with newSigningDoneCheck.
+func VerifC12NewDoneCheck(
+	groupSize int,
+	broadcastChannel net.BroadcastChannel,
+	membershipValidator *group.MembershipValidator,
+) *VerifC12DoneCheck {
+	return &VerifC12DoneCheck{
+		sdc: newSigningDoneCheck(groupSize, broadcastChannel, membershipValidator),
+	}
+}
+
+// Listen calls signingDoneCheck.listen.
+func (dc *VerifC12DoneCheck) Listen(
+	ctx context.Context,
+	message *big.Int,
+	attemptNumber uint64,
+	attemptTimeoutBlock uint64,
+	attemptMembersIndexes []group.MemberIndex,
+) {
+	dc.sdc.listen(
+		ctx,
+		message,
+		attemptNumber,
+		attemptTimeoutBlock,
+		attemptMembersIndexes,
+	)
+}
+
+// Stored returns the done message stored for the given member, nil if none.
+func (dc *VerifC12DoneCheck) Stored(senderID group.MemberIndex) interface{} {
+	dc.sdc.doneSignersMutex.Lock()
+	defer dc.sdc.doneSignersMutex.Unlock()
+	if doneMessage, ok := dc.sdc.doneSigners[senderID]; ok {
+		return doneMessage
+	}
+	return nil
+}
+
+// VerifC12NewDoneMessage builds a signingDoneMessage.
+func VerifC12NewDoneMessage(
+	senderID group.MemberIndex,
+	message *big.Int,
+	attemptNumber uint64,
+	signature *tecdsa.Signature,
+	endBlock uint64,
+) interface{} {
+	return &signingDoneMessage{
+		senderID:      senderID,
+		message:       message,
+		attemptNumber: attemptNumber,
+		signature:     signature,
+		endBlock:      endBlock,
+	}
+}
